@@ -345,7 +345,13 @@ def _run_behaviour(steps, seed_hex="5e" * 64, world=None, private_gens=None, tag
                         b85 = [lambda b, i: b.wif(index=i), lambda b, i: b.bip39_mnemonic(word_count=12, index=i),
                                lambda b, i: b.bip39_mnemonic(word_count=24, index=i), lambda b, i: b.xprv(index=i),
                                lambda b, i: b.hex(num_bytes=16, index=i), lambda b, i: b.pwd(pwd_len=20, index=i),
-                               lambda b, i: b.bip39_mnemonic(word_count=18, index=i)][(si + len(path)) % 7]
+                               lambda b, i: b.bip39_mnemonic(word_count=18, index=i),
+                               # the same applications in Python's other call spellings, with values that coincide
+                               # across parameters (what was WRITTEN is equal, what was MEANT is not)
+                               lambda b, i: b.hex(num_bytes=32), lambda b, i: b.hex(index=32), lambda b, i: b.hex(20, 40),
+                               lambda b, i: b.hex(index=20, num_bytes=40), lambda b, i: b.pwd(pwd_len=21), lambda b, i: b.pwd(index=21),
+                               lambda b, i: b.bip39_mnemonic(12, 24), lambda b, i: b.bip39_mnemonic(index=12, word_count=24),
+                               lambda b, i: b.wif(i), lambda b, i: b.xprv(i)][(si * 5 + len(path)) % 17]
                         got = b85(wl.bip85, len(path)) if wl.bip85 is not None else None
                     err = None
                 except Exception as ex:
